@@ -47,6 +47,8 @@ struct Case {
     hang_ms: u64,
     /// `Action::Test` instead of `Action::Bench` (one round of one call)
     test: bool,
+    /// per round (cycling): one character per thread, '1' = the thread allocates in its calls
+    mask: Vec<Vec<u8>>,
 }
 
 fn parse_case(line: &str) -> Case {
@@ -64,6 +66,7 @@ fn parse_case(line: &str) -> Case {
         faults: vec![],
         hang_ms: 4000,
         test: false,
+        mask: vec![],
     };
     for tok in line.split(' ') {
         let Some((k, val)) = tok.split_once('=') else { continue };
@@ -82,6 +85,7 @@ fn parse_case(line: &str) -> Case {
             "skipext" => c.skipext = val == "1",
             "hang_ms" => c.hang_ms = val.parse().unwrap(),
             "test" => c.test = val == "1",
+            "mask" => c.mask = val.split(',').filter(|m| !m.is_empty()).map(|m| m.as_bytes().to_vec()).collect(),
             "fault" => {
                 if val != "none" {
                     for f in val.split(',') {
@@ -192,9 +196,16 @@ impl Ctx {
     fn call(&self) {
         let (t, idx) = self.point(EV_CALL, 'c', &CALL_CNT);
         let n = self.case.n as u64;
-        let v = Vec::<u8>::with_capacity(asize(t, idx / n, idx % n));
-        std::hint::black_box(&v);
-        std::mem::forget(v);
+        let r = idx / n;
+        let allocates = match self.case.mask.len() {
+            0 => true,
+            l => self.case.mask[(r as usize) % l].get(t as usize) == Some(&b'1'),
+        };
+        if allocates {
+            let v = Vec::<u8>::with_capacity(asize(t, r, idx % n));
+            std::hint::black_box(&v);
+            std::mem::forget(v);
+        }
     }
 
     fn drop_out(&self) {
